@@ -309,6 +309,37 @@ def mapcompose(ctx, E, crate, fa, ok_b, stores):
                 if "prev" in roots and "new" in roots:
                     found = (cb, cp, roots)
     if found is None:
+        # `self.data.mapper.as_ref().map(|prev| prev.compose(&mapper))`: the composition inside the
+        # closure of an Option combinator applied to the previous mapper
+        for b, t in fa.calls():
+            nm = {strip_generics(x).rsplit("::", 1)[-1] for x in callee_paths(t)}
+            if not (nm & {"map", "map_or", "map_or_else", "and_then"}) or len(t["args"]) < 2:
+                continue
+            rap = E.ap_operand(fa, t["args"][0])
+            recv_prev = rap is not None and (rap == map_ap or (rap.root[0] == "call" and rap.root[1] in prev_reads))
+            cl = E.closure_of_operand(fa, t["args"][-1])
+            if not recv_prev or cl is None:
+                continue
+            cfa = E.fa(cl[0])
+            for cb, ct in cfa.calls():
+                if not ct["args"] or len(ct["args"]) < 2:
+                    continue
+                roots = []
+                for a in ct["args"]:
+                    ap = E.ap_operand(cfa, a)
+                    if ap is None:
+                        roots.append(None)
+                    elif ap.root == ("arg", 2):
+                        roots.append("prev")
+                    elif ap.root == ("arg", 1):
+                        pm = Effects.map_closure_ap(ap, cl[1])
+                        roots.append("prev" if pm is not None and (pm == map_ap or (
+                            pm.root[0] == "call" and pm.root[1] in prev_reads)) else "new")
+                    else:
+                        roots.append("new")
+                if "prev" in roots and "new" in roots:
+                    found = (cb, ct, roots)
+    if found is None:
         ctx.ob("MAPCOMPOSE", "%s|composes" % P_MAP, False, fn_loc(crate, P_MAP),
                "the previous mapper is read but the stored value is not computed from both the "
                "previous and the new mapper")
@@ -777,6 +808,21 @@ def mapparse(ctx):
                 none_t = arms.get(0, t["otherwise"])
                 if err_only(none_t):
                     miss = True
+    if not miss:
+        # the checked lookup turned into an error by a combinator: `get_mut(i).ok_or_else(..)?`
+        for b, t in fa.calls():
+            nm = {strip_generics(x).rsplit("::", 1)[-1] for x in callee_paths(t)}
+            if not (nm & {"ok_or", "ok_or_else"}) or not t["args"]:
+                continue
+            src = fa.origin(t["args"][0])
+            if src[0] != "call" or not ({strip_generics(x).rsplit("::", 1)[-1] for x in callee_paths(src[2])}
+                                        & {"get_mut", "get"}):
+                continue
+            for ub, ut in fa.calls():
+                if any("Try>::branch" in x or x.endswith("Try::branch") for x in callee_paths(ut)) and ut["args"]:
+                    o2 = fa.origin(ut["args"][0])
+                    if o2[0] == "call" and o2[1] == b:
+                        miss = True
     ctx.ob("MAPPARSE", "%s|id-0-rejected" % p, zero, loc,
            "an input id equal to the BOS/EOS id 0 leads to Err" if zero else
            "ConnIdMapper::parse no longer rejects the reserved id 0: a mapping may move the BOS/EOS "
